@@ -86,6 +86,9 @@ pub struct Owed {
 
 /// Script-side state of one connection.
 pub struct ConnS {
+    /// Index (in `written`) of the frame above the client's incoming limit, after
+    /// which the script says nothing more on this connection.
+    pub oversize_at: Option<usize>,
     /// DISCONNECT packets the client wrote on this connection.
     pub client_disconnects: u32,
     pub inbuf: Vec<u8>,
@@ -161,6 +164,7 @@ impl ConnS {
             first_unsol: None,
             unsol: Vec::new(),
             client_disconnects: 0,
+            oversize_at: None,
             stray: BTreeSet::new(),
             stray_count: 0,
             maybe_rel: BTreeSet::new(),
@@ -269,6 +273,7 @@ pub struct World<'a> {
     pub detected: bool,
     pub connect_started_ms: Option<u64>,
     pub c18_done: bool,
+    pub oversize_done: bool,
     pub c18_busy: bool,
     /// Keep-alive in force on the current connection (CONNECT value, or the
     /// server keep-alive of the CONNACK), in ms.
@@ -350,7 +355,8 @@ impl<'a> World<'a> {
     }
 
     pub fn is(&self, p: P) -> bool {
-        self.cfg.prop == p
+        // a C05 run is a C10 run with one oversize frame
+        self.cfg.prop == p || (p == P::C10 && self.cfg.prop == P::C05)
     }
 
     /// Index of the latest connection, if it is still usable by the script.
@@ -387,7 +393,7 @@ impl<'a> World<'a> {
     // -----------------------------------------------------------------------
 
     pub fn send(&mut self, idx: usize, pk: Pk) {
-        if self.cur() != Some(idx) {
+        if self.cur() != Some(idx) || self.conns[idx].oversize_at.is_some() {
             return;
         }
         let mut bytes = Vec::new();
@@ -479,7 +485,7 @@ impl<'a> World<'a> {
         c.written_bytes += bytes.len() as u64;
         c.written_ends.push(c.written_bytes);
         // C10: acks the client may / must produce
-        if self.cfg.prop == P::C10 {
+        if matches!(self.cfg.prop, P::C10 | P::C05) {
             match &pk {
                 Pk::Publish { qos: 1, pkid, .. } => {
                     *c.acks_may.entry((4, *pkid)).or_insert(0) += 1;
@@ -680,6 +686,28 @@ impl<'a> World<'a> {
         for _ in 0..n {
             self.inbound_seq += 1;
             let seq = self.inbound_seq;
+            if self.cfg.oversize && !self.oversize_done && self.established && self.ch.coin(1, 6) {
+                // one frame above the client's incoming limit (10 KiB): it must be
+                // refused, whatever limits the CONNACK carried for the other direction
+                self.oversize_done = true;
+                let qos = self.ch.pick(2) as u8;
+                let mut payload = format!("i{seq}").into_bytes();
+                payload.resize(*self.ch.choose(&[10_300usize, 11_000, 70_000]), b'x');
+                let pk = Pk::Publish {
+                    dup: false,
+                    qos,
+                    retain: false,
+                    topic: "in/0".into(),
+                    pkid: if qos == 0 { 0 } else { 9 },
+                    payload,
+                    alias: None,
+                };
+                self.rep.fault("oversize_frame");
+                self.send(idx, pk);
+                let at = self.conns[idx].written.len().saturating_sub(1);
+                self.conns[idx].oversize_at = Some(at);
+                return;
+            }
             let k = if self.is(P::C18) { self.ch.pick(3) } else { self.ch.pick(8) };
             let pk = match k {
                 0 | 1 | 2 | 3 => {
@@ -2100,6 +2128,7 @@ impl<'a> World<'a> {
             detected: false,
             connect_started_ms: None,
             c18_done: false,
+            oversize_done: false,
             c18_busy: false,
             k_eff_ms: None,
             c18_second_life: false,
